@@ -297,6 +297,40 @@ pub fn run_property(id: &'static str) -> ! {
       "runs_stopped_by_watchdog": hangs,
     });
   }
+  // ---- C03 (c): whatever the checker accepts out of the families that are ill-typed by
+  // construction must still compile to a valid module (a checker that lets one of them through
+  // usually shows as a crash further down the pipeline) ----
+  let mut illtyped_report = json!(null);
+  if id == "C03" {
+    use rayon::prelude::*;
+    let mut cases: Vec<crate::illtyped::Ill> = crate::illtyped::conformance();
+    cases.extend(crate::illtyped::visibility());
+    for a in crate::illtyped::arity() {
+      cases.push(crate::illtyped::Ill { kind: "call-shape", what: a.what, modules: vec![("Main".into(), a.text)], target: "Main".into() });
+    }
+    let results: Vec<(usize, Result<crate::exec::Emitted, CompileFail>)> =
+      cases.par_iter().enumerate().map(|(i, c)| (i, crate::exec::compile_program(&c.modules, &c.target))).collect();
+    let mut accepted = 0u64;
+    for (i, r) in results {
+      let c = &cases[i];
+      let payload = || json!({"family": c.kind, "what": c.what, "modules": c.modules});
+      match r {
+        Err(CompileFail::Rejected(_)) => {}
+        Err(CompileFail::Panicked(p)) => run.violation(
+          &format!("generated|{}|compile-panic:{}", c.kind, compile_panic_signature(&p)),
+          &format!("compile_sources crashed ({}) on: {}", p.chars().take(160).collect::<String>(), c.what),
+          payload(),
+        ),
+        Ok(e) => {
+          accepted += 1;
+          if let Err(v) = crate::exec::validate_wasm(&e.wasm) {
+            run.violation(&format!("generated|{}|invalid-wasm", c.kind), &format!("emitted module fails validation ({v}) for: {}", c.what), payload());
+          }
+        }
+      }
+    }
+    illtyped_report = json!({"programs": cases.len(), "accepted_by_the_checker_and_compiled_to_a_valid_module": accepted});
+  }
   let small: Vec<&Eval> = evals.iter().filter(|e| e.prog.text.len() < 700).collect();
   let samples: Vec<Value> = spaced_samples(&small, 5)
     .into_iter()
@@ -317,6 +351,7 @@ pub fn run_property(id: &'static str) -> ! {
       "compared": compared,
       "dropped_unspecified": dropped_unspecified,
       "accepted_single_edit_mutants": mutant_report,
+      "generated_conformance_visibility_call_shape_programs": illtyped_report,
       "exhaustive": true,
     }),
     vec![
